@@ -388,7 +388,14 @@ def suite_ddd(ctx):
                 except Exception:  # noqa
                     pass
                 s.count('definition read before the call')
-            cl.observe_outer(conn, lambda: client.dynamically_define_did(did, ddd))
+            if len(entries) == 1 and rng.random() < 0.5:
+                # a single range may be handed over as the MemoryLocation itself (documented): same precedence of explicit / configured / smallest widths
+                a_, z_, x_, y_ = entries[0]
+                bare = MemoryLocation(a_, z_, x_, y_)
+                cl.observe_outer(conn, lambda: client.dynamically_define_did(did, bare))
+                s.count('bare MemoryLocation')
+            else:
+                cl.observe_outer(conn, lambda: client.dynamically_define_did(did, ddd))
             sends = [o[1] for o in conn.log if o[0] == 'send']
         lines.append(line)
         impl.append('sent:' + sends[0].hex() if sends else 'reject')
